@@ -28,14 +28,14 @@ CHECKS = {
              "render_lex, split_spec (kept pieces = non-empty `;`-delimited segments), split_render / count_eq for scripts "
              "assembled from statements and arbitrary separator noise, empty_and_comment_only_dropped, `;` inside literals and "
              "comments does not split, eval_is_fold / run_is_fold (falsy provider, session bracket, both split modes), "
-             "script_eq_statements, script_concat + differential correspondence of the model with helpers.split, the texts _eval "
+             "script_eq_statements_partial, script_concat_partial + differential correspondence of the model with helpers.split, the texts _eval "
              "analyses (statement tap), statements() and the count on bounded-exhaustive and seeded-random assembled scripts "
              "(generated pool + corpus statements), an assembly-known oracle, script-vs-per-statement lineage, and T-SQL "
              "no-semicolon mode",
         design_ref="DESIGN.md §5 C05",
         note="partial: sqlparse's and sqlfluff's real lexers are modelled (not verified); Level0 restriction. " + TB +
              ". The per-statement analyser and the assembler are abstract parameters of the runner theorems; insensitivity of the "
-             "analysis to attached comments / blanks / the trailing `;` (C07) is a hypothesis of script_eq_statements and is "
+             "analysis to attached comments / blanks / the trailing `;` (C07) is a hypothesis of script_eq_statements_partial and is "
              "exercised, not proved, here. T-SQL batch splitting (sqlfluff) is an abstract splitter in the theorems and is "
              "checked impl-vs-impl. Class level0 (decidable, part of every hypothesis and of the generator): printable ASCII + "
              "TAB + LF without $ \\ [, terminated literals/comments, no comment opener directly behind an operator character, no "
